@@ -124,8 +124,13 @@ class C18(C.PipelineCheck):
             base = 'C18/%s/%s' % (tag, mode)
             wit = lambda m, proj=proj, mode=mode: C.witness_of(proj, m, dict(mode=mode, site=site, target=tgt))
             # 1. the mapped position denotes the target
-            want = S.norm(_denote_with(sk, TARGETS[tgt]))
+            # reference: the same project with the target's Rust primitive written in place of N and no mapping
+            # (so the rendering of the surrounding constructors, which is C05/C10's business, cancels out)
+            prim = {'string': 'String', 'number': 'f64', 'boolean': 'bool'}[tgt]
+            src3 = self.project(site, S.rust_text(skeleton(chain, ('prim', prim))), 'Option<%s>' % look) + '#[derive(Serialize, Deserialize)]\npub struct %s { pub v: i32 }\n' % look
+            run3 = PL.run_model(I, PL.Project({'src/main.rs': src3}, holes, {'validation_library': mode}))
             try:
+                want = self.emitted_shape(site, mode, run3.outputs) if run3.result.var == 'Ok' else S.norm(_denote_with(sk, TARGETS[tgt]))
                 got = self.emitted_shape(site, mode, run.outputs)
             except TS.Reject as r:
                 ctx.violation(e, base + '/unreadable', 'output can be read back', True, wit, r.what)
